@@ -489,7 +489,12 @@ pub fn run(cfg: &Cfg) -> Report {
         let mut rng = Rng::stream(seed, 0x02_c000 + k as u64);
         let base = &bases[k % bases.len()];
         let mut m = base.clone();
+        // either random holes, or holes in a single index only (e.g. only the highest one)
+        let only = if rng.chance(1, 2) { Some(rng.below(m.dim + 1)) } else { None };
         for i in 0..=m.dim {
+            if only.map_or(false, |o| o != i) {
+                continue;
+            }
             for d in 1..=m.n {
                 if rng.chance(1, 3) {
                     let e = m.op[i][d];
@@ -499,6 +504,39 @@ pub fn run(cfg: &Cfg) -> Report {
                     }
                 }
             }
+        }
+        // predicates whose definitions extend verbatim to partial sets: totality, absence of (defined)
+        // fixed points, reachability along defined edges, op = None on undefined entries
+        let incomplete = !m.is_complete_set();
+        let r2 = observe(|| {
+            let ds = to_partial_dset(&m);
+            let mut bad: Vec<(&str, Value)> = vec![];
+            if ds.is_complete() == incomplete {
+                bad.push(("predicate-is_complete", json!({"got": ds.is_complete(), "expected": !incomplete})));
+            }
+            if ds.is_loopless() != m.is_loopless() {
+                bad.push(("predicate-is_loopless", json!({"got": ds.is_loopless(), "expected": m.is_loopless()})));
+            }
+            if ds.is_connected() != m.is_connected() {
+                bad.push(("predicate-is_connected", json!({"got": ds.is_connected(), "expected": m.is_connected()})));
+            }
+            for i in 0..=m.dim {
+                for d in 1..=m.n {
+                    let want = if m.op[i][d] == 0 { None } else { Some(m.op[i][d]) };
+                    if ds.op(i, d) != want {
+                        bad.push(("op", json!({"i": i, "d": d, "got": ds.op(i, d), "expected": want})));
+                    }
+                }
+            }
+            bad
+        });
+        if let Ok(bad) = r2 {
+            for (c, o) in bad.into_iter().take(1) {
+                ctx.violation(c, "PartialDSet (incomplete)", json!({"ops": m.op}), o, "complete = every entry defined; loopless / connected / op by their definitions on the defined entries");
+            }
+        }
+        if incomplete {
+            ctx.count("incomplete_sets_predicates_judged");
         }
         let r = observe(|| {
             let ds = to_partial_dset(&m);
@@ -523,10 +561,10 @@ pub fn run(cfg: &Cfg) -> Report {
     });
     report.absorb(ctx);
 
-    report.rule = format!("(A) every labelled tuple of involutions with commuting far operations (connected or not) for (dim, max size) in {:?}, with all branching assignments from {{1,2,3}} when there are <= 4 two-orbits (random otherwise); each queried as PartialDSet, SimpleDSet, PartialDSym, SimpleDSym, through the as_* conversions and the parser, over the full argument box [0,dim+2]^2 x [0,size+2], all index subsets and seed lists of size <= 3; (B) DSets / DSyms generator outputs; (C) iterated orientation double covers up to several hundred chambers, renumbered; (D) incomplete sets for no-panic only. Non-trivial = valid symbol with >= 2 chambers queried in >= 2 representations; distinct = distinct symbol digests", bounds);
+    report.rule = format!("(A) every labelled tuple of involutions with commuting far operations (connected or not) for (dim, max size) in {:?}, with all branching assignments from {{1,2,3}} when there are <= 4 two-orbits (random otherwise); each queried as PartialDSet, SimpleDSet, PartialDSym, SimpleDSym, through the as_* conversions and the parser, over the full argument box [0,dim+2]^2 x [0,size+2], all index subsets and seed lists of size <= 3; (B) DSets / DSyms generator outputs; (C) iterated orientation double covers up to several hundred chambers, renumbered; (D) incomplete sets (random holes, or holes in one index only): is_complete / is_loopless / is_connected / op judged, everything else for absence of panics. Non-trivial = valid symbol with >= 2 chambers queried in >= 2 representations; distinct = distinct symbol digests", bounds);
     report.explanation = "oracle MSym: orbit length by iterating the product of two operations, reachability by BFS, bipartiteness by 2-colouring; all representations are compared with the same model, hence with each other".into();
     report.note("exhaustive_subuniverses", json!(bounds.iter().map(|(d, n)| format!("all labelled D-sets of dimension {} with <= {} chambers", d, n)).collect::<Vec<_>>()));
-    report.assume("verdict domain: complete sets whose far operations commute; incomplete sets are only exercised for absence of panics");
+    report.assume("verdict domain: complete sets whose far operations commute; on incomplete sets only the predicates whose definitions extend verbatim (complete, loopless, connected, op) are judged, the rest is exercised for absence of panics");
     for &(dim, _) in &bounds {
         report.require_counter(&format!("labelled_sets.dim{}", dim), 10);
         if dim >= 2 {
@@ -537,6 +575,7 @@ pub fn run(cfg: &Cfg) -> Report {
     report.require_counter("generator_sets", 50);
     report.require_counter("generator_symbols", 50);
     report.require_counter("large_sets_100plus", 5);
+    report.require_counter("incomplete_sets_predicates_judged", 500);
     report
 }
 
